@@ -263,6 +263,10 @@ def rules(rep, facts):
     r10_variant_collectors(rep, facts)
     r1_wrappers(rep, facts)
     r7_value_passes(rep, facts)
+    if facts.config == 'default' and 'toml' in facts.crates:
+        # the Value route must not read a table by position where the text route reads it by key (seeded change C13-m15)
+        from .rules_c18 import r5_order_sensitive
+        r5_order_sensitive(rep, rid='C13/R13')
     if 'toml_edit' in facts.crates and 'serde' in feats:
         r2_tunnel(rep, facts)
         r4_none_and_insert(rep, facts)
